@@ -267,12 +267,19 @@ func c13SameTyped(a, b *ledger.ChainedLog) string {
 // idempotency key, metadata nil / empty / filled) are read back from their stored form and re-verified.
 func c13EngineWritten(rt *rapid.T, c *evid.Collector) {
 	store, commander, stop := enginesim.Standalone()
-	defer stop()
+	defer func() { stop() }()
 	ctx := logging.ContextWithLogger(context.Background(), nopLog{})
 	n := rapid.IntRange(2, 8).Draw(rt, "ewWrites")
 	txs := 0
 	var desc strings.Builder
+	restartAt := rapid.IntRange(-n, n-1).Draw(rt, "ewRestartAt") // negative: no restart
 	for i := 0; i < n; i++ {
+		if i == restartAt && i > 0 {
+			// the process is restarted: a new Commander picks the chain up from the store
+			stop()
+			commander, stop = enginesim.StandaloneOver(store)
+			desc.WriteString("restart;")
+		}
 		p := command.Parameters{}
 		if rapid.Bool().Draw(rt, "ewKeyed") {
 			p.IdempotencyKey = fmt.Sprintf("key-%d", i)
